@@ -187,6 +187,71 @@ def _inevitable_refusal(b, start, refusing, limit=4000):
     return True
 
 
+def _basic_refusing(b):
+    refusing = set(b.diverging())
+    for i, blk in enumerate(b.blocks):
+        for st in blk["stmts"]:
+            rv = st["rv"]
+            if rv.get("k") == "agg" and rv.get("adt") == "std::result::Result" and rv.get("variant") == "Err":
+                refusing.add(i)
+            if st["dst"]["l"] == 0 and not st["dst"]["p"]:
+                if rv.get("k") == "agg" and rv.get("variant") == "None":
+                    refusing.add(i)
+                ops = rv.get("ops", [])
+                if rv.get("k") in ("agg", "use") and len(ops) == 1 and ops[0]["k"] == "const" and ops[0].get("val") in (0, False, "false") \
+                        and (ops[0].get("ty") == "bool"):
+                    refusing.add(i)
+    return refusing
+
+
+def refused_variants(g, hb):
+    """variants of the crate enum returned by helper `hb` that every caller in scope turns into a refusal: the arm the
+    caller's `match` takes for that variant ends, on every path, in an `Err` / a negative verdict / an abort."""
+    f = g.facts
+    ret_ty = hb.locals[0]["ty"] or ""
+    adt = next((a for a in f.adts if ret_ty.startswith(a) or ret_ty == a), None)
+    if adt is None or f.adts[adt].get("kind") != "Enum":
+        return None, set()
+    names = [v["name"] for v in f.adts[adt]["variants"]]
+    per_caller = []
+    for cb in sorted(g.scope):
+        b = f.bodies[cb]
+        for i, t in b.calls():
+            if hb.id not in f.call_targets(t, g.ctx_adt) or t["dst"]["p"]:
+                continue
+            copies = {t["dst"]["l"]}
+            discr = set()
+            changed = True
+            while changed:
+                changed = False
+                for blk in b.blocks:
+                    for st in blk["stmts"]:
+                        rv, d = st["rv"], st["dst"]
+                        if d["p"]:
+                            continue
+                        if rv.get("k") in ("use", "ref") and d["l"] not in copies:
+                            pl = rv.get("pl") if rv.get("k") == "ref" else (rv["ops"][0].get("pl") if rv["ops"][0]["k"] in ("copy", "move") else None)
+                            if pl is not None and pl["l"] in copies and all(e == "*" for e in pl["p"]):
+                                copies.add(d["l"])
+                                changed = True
+                        if rv.get("k") == "discr" and rv["pl"]["l"] in copies and d["l"] not in discr:
+                            discr.add(d["l"])
+                            changed = True
+            refusing = _basic_refusing(b)
+            ok = set()
+            for j, blk in enumerate(b.blocks):
+                tt = blk["term"]
+                if tt["k"] == "switch" and tt["op"]["k"] in ("copy", "move") and tt["op"]["pl"]["l"] in discr:
+                    for k, nm in enumerate(names):
+                        tg = _targets(tt, k)
+                        if tg and all(x in refusing or _inevitable_refusal(b, x, refusing) for x in tg):
+                            ok.add(nm)
+            per_caller.append(ok)
+    if not per_caller:
+        return adt, set()
+    return adt, set.intersection(*per_caller)
+
+
 def mismatch_refusal(g, odb, osc):
     """a refusing block reached with the first test saying `present` and the second `absent` or the other way round."""
     f = g.facts
@@ -196,20 +261,16 @@ def mismatch_refusal(g, odb, osc):
         s2s = _switches(b, osc, bid)
         if not s1s or not s2s:
             continue
-        refusing = set(b.diverging())
-        for i, blk in enumerate(b.blocks):
-            for st in blk["stmts"]:
-                rv = st["rv"]
-                if rv.get("k") == "agg" and rv.get("adt") == "std::result::Result" and rv.get("variant") == "Err":
-                    refusing.add(i)
-                # early negative verdicts written to the return place: `return None`, `return Ok(false)`, `return false`
-                if st["dst"]["l"] == 0 and not st["dst"]["p"]:
-                    if rv.get("k") == "agg" and rv.get("variant") == "None":
-                        refusing.add(i)
-                    ops = rv.get("ops", [])
-                    if rv.get("k") in ("agg", "use") and len(ops) == 1 and ops[0]["k"] == "const" and ops[0].get("val") in (0, False, "false") \
-                            and (ops[0].get("ty") == "bool"):
-                        refusing.add(i)
+        refusing = _basic_refusing(b)
+        # a helper that answers with a private verdict enum: the variants every caller turns into a refusal
+        if b.kind != "Closure":
+            adt_, bad_vars = refused_variants(g, b)
+            if bad_vars:
+                for i, blk in enumerate(b.blocks):
+                    for st in blk["stmts"]:
+                        rv = st["rv"]
+                        if st["dst"]["l"] == 0 and not st["dst"]["p"] and rv.get("k") == "agg" and rv.get("adt") == adt_ and rv.get("variant") in bad_vars:
+                            refusing.add(i)
         for (first, second) in ((s1s, s2s), (s2s, s1s)):
             for (i1, t1, p1) in first:
                 for (i2, t2, p2) in second:
